@@ -109,8 +109,20 @@ class FunctionEffects(object):
                 for kind, v in self.assignments[name]:
                     out |= self.origins(v, _stack + (key,))
             elif name not in self.params and name not in self.locals:
-                # free variable: enclosing function's local or module global
-                out.add(('global', name))
+                # free variable: a local/parameter of an enclosing function, or a module global
+                outer = self.fi.outer
+                found = False
+                while outer is not None:
+                    if name in local_names(outer.node):
+                        ofx = FunctionEffects(outer, self.index)
+                        for o in ofx.origins(ast.Name(id=name, ctx=ast.Load())):
+                            out.add(('outerparam', o[1]) if o[0] == 'param' else o)
+                        out.add(('closure', name))
+                        found = True
+                        break
+                    outer = outer.outer
+                if not found:
+                    out.add(('global', name))
             if not _stack:
                 self._orig_cache[key] = out
             return out or {FRESH}
@@ -244,6 +256,13 @@ class MutationSummaries(object):
             for o in via.origins:
                 if o[0] == 'param':
                     out.setdefault(o[1], []).append(via)
+        # closures defined here that mutate one of our parameters
+        for q, inner in self.index.funcs.items():
+            if inner.outer is fi:
+                for m in self.fx(inner).direct_mutations():
+                    for o in m.origins:
+                        if o[0] == 'outerparam':
+                            out.setdefault(o[1], []).append(m)
         if not _stack:
             self._memo[k] = out
         return out
